@@ -163,6 +163,13 @@ func (a *remoteAuthorizer) Execute(ctx heimdall.Context, sub *subject.Subject) e
 			if err = json.Unmarshal(entry, &ai); err == nil {
 				logger.Debug().Msg("Reusing authorization information from cache")
 
+				// the authorization information might have been cached while executing another rule
+				// using the same mechanism with different expressions. So, it must satisfy the
+				// expressions of this one as well
+				if err = a.verify(ctx, ai.Payload); err != nil {
+					return err
+				}
+
 				authInfo = &ai
 			}
 		}
